@@ -662,7 +662,7 @@ def leaf(v):
 
 
 def mid():
-    tick.hit("mid")
+    # (no execution log here: mid must not reference any external name, not even the logger)
     w = (1, 2)
     return ("mid", dds.keep("/t15/leaf", leaf, w))
 
